@@ -104,14 +104,28 @@ def build(ch):
                 z = 1 + ch.below(ln - 1)
                 data = bytes(z) + data[z:]                                  # leading zeros
                 cls['zero_bytes_in_segment'] = 1
+            elif shape == 4:
+                ln = ch.pick((3, 8, 23, 60, 200))
+                data = pools.segment_text(ch, ln)                           # bytes that mean something inside a C literal
+                cls['segment_bytes_hazardous_in_c_literals'] = 1
+            bigseg = None
+            if ch.below(8) == 0 and not mem_extra:
+                bigseg = pools.segment_big(ch, mn * 65536 - 64, s)
+            if bigseg:
+                ln, data = bigseg
+                cls['segment_of_boundary_size>=255'] = 1
+                if ln >= 32767:
+                    cls['segment>=32767_bytes'] = 1
             if ch.below(5) == 0:
                 m.datas.append(('passive', None, data))
                 continue
             if regions and ch.below(2):
-                base = max(ch.pick(regions) + ch.below(9) - 4, 0)       # overlap an earlier segment
+                base = min(max(ch.pick(regions) + ch.below(9) - 4, 0), max(mn * 65536 - ln, 0))       # overlap an earlier segment
                 cls['overlapping_data'] = 1
             else:
                 base = ch.pick((0, 1, 100, 65536 - 64, ch.below(60000)))
+                if base + ln > mn * 65536:
+                    base = ch.pick((0, 16, mn * 65536 - ln))
                 if mem_extra and ch.below(2):
                     # beyond the declared minimum, inside the memory actually bound (also straddling the declared end)
                     base = ch.pick((mn * 65536 - 3, mn * 65536, mn * 65536 + 1 + ch.below(60000), (mn + mem_extra) * 65536 - 24))
@@ -370,12 +384,12 @@ def make_inst(ch, params):
 
 def plan(tier, seed):
     if tier == 'quick':
-        ccs = ['gcc-O0', 'clang-O2', 'gcc-O2', 'clang-O0', 'clang-O1-san']
+        ccs = ['gcc-O0', 'clang-O2', 'gcc-O2', 'clang-O0', 'clang-O1-san', 'gcc-O0-c89']
         # plus: instantiation of a module whose memory is larger than 2 GiB with active segments at offsets >= 2^31 (c05_bigmem)
         return [{'maker': 'c06_inst', 'ncases': 40, 'ccs': ccs, 'shrink_budget': 25, 'reduce_budget': 30} for _ in range(32)] + \
             [{'maker': 'c05_bigmem', 'ncases': 2, 'ccs': ['gcc-O0', 'clang-O2', 'gcc-O2-gnu89'], 'shrink_budget': 4, 'reduce_budget': 4} for _ in range(2)]
     ccs = ['gcc-O0', 'clang-O2', 'gcc-O2', 'clang-O0', 'gcc-O3', 'clang-O3', 'gcc-O0-gnu89', 'clang-O2-gnu89', 'clang-O1-san',
-           'gcc-O1-san']
+           'gcc-O1-san', 'gcc-O0-c89', 'clang-O2-c89']
     return [{'maker': 'c06_inst', 'ncases': 400, 'ccs': ccs, 'shrink_budget': 40, 'reduce_budget': 40} for _ in range(64)] + \
         [{'maker': 'c05_bigmem', 'ncases': 10, 'ccs': ['gcc-O0', 'clang-O2', 'gcc-O2-gnu89', 'clang-O0'], 'shrink_budget': 4, 'reduce_budget': 4} for _ in range(4)]
 
